@@ -798,6 +798,14 @@ def run_shard(shard, tier, seed):
 
 def replay(w):
     st = St(w["config"], w.get("seed", 0))
-    for ev in w["history"]:
-        apply(st, tuple(ev))
+    for i, ev in enumerate(w["history"]):
+        ev = tuple(ev)
+        if ev not in enabled(st):
+            # the code under replay took a different turn earlier (e.g. never asked its transport to close):
+            # the recorded execution does not exist here, so the recorded violation is not reproduced
+            return [("replay-not-applicable", "event %d %r of the witness is not enabled in the replayed state" % (i, ev))]
+        apply(st, ev)
+        bad = invariant(st, w["history"][:i + 1])
+        if bad:
+            return bad
     return invariant(st, w["history"])
